@@ -363,9 +363,9 @@ pub fn classify_len(n: usize) -> &'static str {
 // ---------------------------------------------------------------------------------------------
 // input vectors
 
-pub const INPUT_FAMILIES: [&str; 16] = [
+pub const INPUT_FAMILIES: [&str; 18] = [
     "impulse", "uniform", "positive", "gaussish", "const", "tone", "tone_off", "alt", "spikes", "real", "imag",
-    "conjsym", "wide", "scaled_big", "scaled_small", "ramp",
+    "conjsym", "wide", "scaled_big", "scaled_small", "ramp", "periodic", "silence_mix",
 ];
 
 fn chunk_values(family: &str, seed: u64, n: usize, wide_exp: i32, scale_exp: i32) -> Vec<(f64, f64)> {
@@ -472,6 +472,15 @@ fn chunk_values(family: &str, seed: u64, n: usize, wide_exp: i32, scale_exp: i32
                 *e = (j as f64 / n as f64 - 0.5, 1.0 - (j as f64 / n as f64));
             }
         }
+        "periodic" => {
+            // exactly periodic with a proper divisor q of n as period: whole rows of a radix step cancel to exact zeros
+            let divs: Vec<usize> = (1..=n).filter(|d| n % d == 0 && *d < n).collect();
+            let q = if divs.is_empty() { n } else { divs[s.below(divs.len() as u64) as usize] };
+            let base: Vec<(f64, f64)> = (0..q).map(|_| (s.sym(), s.sym())).collect();
+            for (j, e) in v.iter_mut().enumerate() {
+                *e = base[j % q];
+            }
+        }
         "zero" => {}
         other => panic!("unknown input family {}", other),
     }
@@ -491,6 +500,15 @@ pub fn make_input<T: Real>(spec: &InputSpec, n: usize, chunks: usize) -> Vec<Com
     let (wide_exp, scale_exp) = if T::MAX_EXP < 200 { (20, 40) } else { (200, 400) };
     let mut out = Vec::with_capacity(n * chunks);
     for c in 0..chunks {
+        if spec.family == "silence_mix" {
+            // alternating silent (all-zero) and dense chunks; which parity is silent depends on the seed
+            let silent = (spec.seed as usize + c) % 2 == 1;
+            let vals = if silent { chunk_values("zero", 0, n, wide_exp, scale_exp) } else { chunk_values("uniform", mix(spec.seed, c as u64), n, wide_exp, scale_exp) };
+            for (re, im) in vals {
+                out.push(Complex { re: T::of_f64(re), im: T::of_f64(im) });
+            }
+            continue;
+        }
         let seed = if spec.family == "impulse" || spec.family == "impulse_c" {
             // chunk c carries the impulse at position seed + c (mod n) so that chunks differ
             spec.seed.wrapping_add(c as u64)
